@@ -63,6 +63,7 @@ class C07(runner.Check):
         'recycle_s': rng.choice([0.1, 60.0, 60.0]), 'epoch': simclock.EPOCH + rng.randrange(10**6),
     }
     cfg['id_rot'] = rng.randrange(len(O.STUDY_IDS))  # which adversarial id the main study carries
+    cfg['tz_h'] = rng.choice([0, 0, 9, -8, 5.5])  # the host's local time zone (hours east of UTC)
     n = rng.randrange(5, 31 if tier == 'quick' else 61)
     profile = {'n_studies': rng.choice([1, 2]), 'n_owners': rng.choice([1, 2]),
                'workers': rng.choice([1, 2, 3]), 'p_direct': rng.choice([0.1, 0.3])}
@@ -75,7 +76,7 @@ class C07(runner.Check):
   def run(self, plan):
     res = runner.Result()
     cfg = plan['cfg']
-    clk = simclock.SimClock(epoch=cfg.get('epoch', simclock.EPOCH))
+    clk = simclock.SimClock(epoch=cfg.get('epoch', simclock.EPOCH), tz_offset=3600.0 * cfg.get('tz_h', 0))
     ent = simclock.Entropy(plan.get('entropy', 0))
     det = DetState(clk, ent)
     with simclock.installed(clk, ent):
